@@ -17,6 +17,9 @@ def run(rep, tier, build, replay=None):
     def orc(rep_, cx, case, stats):
         dboracles.oracle_scope(rep_, cx, case)
         dboracles.oracle_relations(rep_, cx, case, stats)     # relation targets (and multi-hop closures) stay in scope
+        if cx.cfg.get('lemmatizer') not in ('morphy', 'morphy_init'):
+            # form searches reach only what senses and forms of the selection link to the form (F22 was found here)
+            dboracles.oracle_search(rep_, cx, case, stats)
 
     first = [True]
 
